@@ -61,35 +61,32 @@ class TransProbe:
         dis.infect = types.MethodType(infect, dis)
 
     def _wrap_pool(self, pool):
+        """The loop's plan holds the bound pool.step captured at init, so the pool is observed from inside:
+        at each p_acquire.filter() call (one per disease per step) the pre-acquisition state is recorded."""
         probe = self
-        orig_step = pool.step
         orig_filter = pool.p_acquire.filter
-        cur = {}
+        state = dict(ti=None, k=0)
         def filt(uids=None, both=False):
-            out = orig_filter(uids, both=both)
-            if 'recs' in cur:
-                p = pool.p_acquire.pars.p
-                cur['recs'].append(dict(dst=np.asarray(uids).copy(), p=np.asarray(p, dtype=float).copy() if np.ndim(p) else float(p), new=np.asarray(out).copy()))
-            return out
-        pool.p_acquire.filter = filt
-        def step(self_):
-            sim = self_.sim
+            sim = pool.sim
             n = int(sim.people.uid.len_used)
+            ti = int(pool.ti)
+            if state['ti'] != ti: state['ti'], state['k'] = ti, 0
+            diseases = pool.diseases or []
             snap = {d.name: dict(inf=np.asarray(d.infectious.raw[:n]).copy(), sus=np.asarray(d.susceptible.raw[:n]).copy(),
                                  rel_trans=np.asarray(d.rel_trans.raw[:n], dtype=float).copy(), rel_sus=np.asarray(d.rel_sus.raw[:n], dtype=float).copy())
-                    for d in (self_.diseases or [])}
-            cur['recs'] = []
-            try:
-                out = orig_step()
-            finally:
-                recs = cur.pop('recs', [])
-            beta = self_.pars.beta
-            probe.pool_calls.append(dict(pool=self_.name, ti=int(self_.ti), snap=snap, recs=recs, diseases=[d.name for d in (self_.diseases or [])],
-                                         src=np.asarray(self_.src_uids).copy() if self_.src_uids is not None else None,
-                                         contacts=np.asarray(self_.eff_contacts.raw[:n], dtype=float).copy(), auids=np.asarray(sim.people.auids).copy(),
+                    for d in diseases}
+            p = pool.p_acquire.pars.p
+            out = orig_filter(uids, both=both)
+            beta = pool.pars.beta
+            dname = diseases[state['k']].name if state['k'] < len(diseases) else None
+            state['k'] += 1
+            probe.pool_calls.append(dict(pool=pool.name, ti=ti, snap=snap, diseases=[dname],
+                                         recs=[dict(dst=np.asarray(uids).copy(), p=np.asarray(p, dtype=float).copy() if np.ndim(p) else float(p), new=np.asarray(out).copy())],
+                                         src=np.asarray(pool.src_uids).copy() if pool.src_uids is not None else None,
+                                         contacts=np.asarray(pool.eff_contacts.raw[:n], dtype=float).copy(), auids=np.asarray(sim.people.auids).copy(),
                                          beta=float(beta.values) if hasattr(beta, 'values') else float(beta)))
             return out
-        pool.step = types.MethodType(step, pool)
+        pool.p_acquire.filter = filt
 
 
 # ------------------------------------------------------------------ Coq encoding of one infect() call
